@@ -351,11 +351,33 @@ theorem cinv_setHealth {w : World} {a : Aid} {v : Rat} (hC : CInv w) : CInv (w.s
   unfold setHealth
   exact cinv_setSt hC rfl
 
+/-! ## properties of the world kept by the primitives -/
+
+/-- a property of the world that the three primitives of the class keep: a `grid.remove` that returned, `grid.place` on a
+cell of the grid (accepted or refused) of the agent a `grid.remove` has just taken out, a write of anything but the position -/
+structure Prim (P : World → Prop) : Prop where
+  remove : ∀ {w w' : World} {a : Aid} {p : Pos}, P w → w.remove a p = .ok w' → P w'
+  reloc : ∀ {w w1 : World} {a : Aid} {src dst : Pos}, P w → w.remove a src = .ok w1 → w1.inGrid dst = true →
+    P (w1.place a dst).2
+  setSt : ∀ {w : World} {a : Aid} {s : AgentSt}, P w → s.pos = (w.stOf a).pos → P (w.setSt a s)
+
+theorem prim_cinv : Prim CInv where
+  remove := cinv_remove
+  reloc := by
+    intro w w1 a src dst hC hr hin
+    have hn1 : w1.n = w.n := by obtain ⟨_, rfl⟩ := remove_ok hr; rfl
+    exact cinv_place (cinv_remove hC hr) (by rw [hn1]; exact lt_of_remove hC hr) (nowhere_remove hC hr) hin
+  setSt := cinv_setSt
+
+theorem Prim.setHealth {P : World → Prop} (hP : Prim P) {w : World} {a : Aid} {v : Rat} (h : P w) : P (w.setHealth a v) := by
+  unfold World.setHealth
+  exact hP.setSt h rfl
+
 /-! ## the move actors, for ANY mover -/
 
 /-- the common body of the move actors keeps the cell structure, whoever the mover is -/
-theorem cinv_moveBy {w w' : World} {a : Aid} {d : Pos} {b : Bool} (hC : CInv w) (h : w.moveBy a d = .ok (b, w')) :
-    CInv w' := by
+theorem prim_moveBy {P : World → Prop} (hP : Prim P) {w w' : World} {a : Aid} {d : Pos} {b : Bool} (hC : P w)
+    (h : w.moveBy a d = .ok (b, w')) : P w' := by
   unfold moveBy at h
   simp only at h
   split at h
@@ -371,13 +393,12 @@ theorem cinv_moveBy {w w' : World} {a : Aid} {d : Pos} {b : Bool} (hC : CInv w) 
           have hin1 : w1.inGrid ((w.stOf a).pos.1 + d.1, (w.stOf a).pos.2 + d.2) = true := by
             obtain ⟨_, rfl⟩ := remove_ok hr
             exact hin
-          have hn1 : w1.n = w.n := by obtain ⟨_, rfl⟩ := remove_ok hr; rfl
-          exact cinv_place (cinv_remove hC hr) (by rw [hn1]; exact lt_of_remove hC hr) (nowhere_remove hC hr) hin1
+          exact hP.reloc hC hr hin1
       · simp only [Except.ok.injEq, Prod.mk.injEq] at h; rw [← h.2]; exact hC
   · simp only [Except.ok.injEq, Prod.mk.injEq] at h; rw [← h.2]; exact hC
 
-theorem cinv_crossAct {w w' : World} {a : Aid} {x : Int} {r : Option Bool} (hC : CInv w)
-    (h : w.crossAct a x = .ok (r, w')) : CInv w' := by
+theorem prim_crossAct {P : World → Prop} (hP : Prim P) {w w' : World} {a : Aid} {x : Int} {r : Option Bool} (hC : P w)
+    (h : w.crossAct a x = .ok (r, w')) : P w' := by
   unfold crossAct at h
   split at h
   · split at h
@@ -385,26 +406,26 @@ theorem cinv_crossAct {w w' : World} {a : Aid} {x : Int} {r : Option Bool} (hC :
     · split at h
       · rename_i b w1 hm
         simp only [Except.ok.injEq, Prod.mk.injEq] at h
-        rw [← h.2]; exact cinv_moveBy hC hm
+        rw [← h.2]; exact prim_moveBy hP hC hm
       · cases h
   · simp only [Except.ok.injEq, Prod.mk.injEq] at h; rw [← h.2]; exact hC
 
 /-- **`DriftMoveActor.process_action` keeps the cell structure for ANY mover** (dead but still stored, active but stored
 nowhere, not an agent of the simulation) and any action -/
-theorem cinv_driftAct {w w' : World} {a : Aid} {x : Int} {r : Option Bool} {l : Int} (hC : CInv w)
-    (h : w.driftAct a x = .ok (r, w', l)) : CInv w' := by
+theorem prim_driftAct {P : World → Prop} (hP : Prim P) {w w' : World} {a : Aid} {x : Int} {r : Option Bool} {l : Int} (hC : P w)
+    (h : w.driftAct a x = .ok (r, w', l)) : P w' := by
   unfold driftAct at h
   simp only at h
   split at h
-  · have hdrift : ∀ (w0 : World) (r' : Option Bool) (w'' : World) (l' : Int), CInv w0 →
+  · have hdrift : ∀ (w0 : World) (r' : Option Bool) (w'' : World) (l' : Int), P w0 →
         (match w0.crossAct a ((w0.stOf a).orient : Int) with
          | .ok (b, w1) => Except.ok (b, w1, ((w0.stOf a).orient : Int))
-         | .error e => .error e) = .ok (r', w'', l') → CInv w'' := by
+         | .error e => .error e) = .ok (r', w'', l') → P w'' := by
       intro w0 r' w'' l' h0 hd
       split at hd
       · rename_i b w1 hc
         simp only [Except.ok.injEq, Prod.mk.injEq] at hd
-        rw [← hd.2.1]; exact cinv_crossAct h0 hc
+        rw [← hd.2.1]; exact prim_crossAct hP h0 hc
       · cases hd
     by_cases hx0 : x ≠ 0
     · rw [if_pos hx0] at h
@@ -414,14 +435,14 @@ theorem cinv_driftAct {w w' : World} {a : Aid} {x : Int} {r : Option Bool} {l : 
         obtain ⟨r1, w1⟩ := rw1
         rw [hc] at h
         cases r1 with
-        | none => exact hdrift w1 r w' l (cinv_crossAct hC hc) h
+        | none => exact hdrift w1 r w' l (prim_crossAct hP hC hc) h
         | some b =>
           cases b with
-          | false => exact hdrift w1 r w' l (cinv_crossAct hC hc) h
+          | false => exact hdrift w1 r w' l (prim_crossAct hP hC hc) h
           | true =>
             simp only [Except.ok.injEq, Prod.mk.injEq] at h
             rw [← h.2.1]
-            exact cinv_setSt (cinv_crossAct hC hc) rfl
+            exact hP.setSt (prim_crossAct hP hC hc) rfl
     · rw [if_neg hx0] at h
       exact hdrift w r w' l hC h
   · simp only [Except.ok.injEq, Prod.mk.injEq] at h; rw [← h.2.1]; exact hC
@@ -435,11 +456,12 @@ theorem removeG_ok {w w' : World} {a : Aid} {p : Pos} (h : removeG w a p = .ok w
   · rename_i hin; exact ⟨hin, h⟩
   · cases h
 
-theorem cinv_removeG {w w' : World} {a : Aid} {p : Pos} (hC : CInv w) (h : removeG w a p = .ok w') : CInv w' :=
-  cinv_remove hC (removeG_ok h).2
+theorem prim_removeG {P : World → Prop} (hP : Prim P) {w w' : World} {a : Aid} {p : Pos} (hC : P w)
+    (h : removeG w a p = .ok w') : P w' :=
+  hP.remove hC (removeG_ok h).2
 
 /-- **the teleport keeps the cell structure**: `grid.remove` that raised, `grid.place` refused or outside the grid -/
-theorem cinv_teleTo {w : World} (a : Aid) (src dst : Pos) (hC : CInv w) : CInv (teleTo w a src dst).1 := by
+theorem prim_teleTo {P : World → Prop} (hP : Prim P) {w : World} (a : Aid) (src dst : Pos) (hC : P w) : P (teleTo w a src dst).1 := by
   unfold teleTo
   split
   · exact hC
@@ -447,16 +469,15 @@ theorem cinv_teleTo {w : World} (a : Aid) (src dst : Pos) (hC : CInv w) : CInv (
     have hr' := (removeG_ok hr).2
     split
     · rename_i hin
-      have hn1 : w1.n = w.n := by obtain ⟨_, rfl⟩ := remove_ok hr'; rfl
-      exact cinv_place (cinv_remove hC hr') (by rw [hn1]; exact lt_of_remove hC hr') (nowhere_remove hC hr') hin
-    · exact cinv_remove hC hr'
+      exact hP.reloc hC hr' hin
+    · exact hP.remove hC hr'
 
-theorem cinv_tele (cfg : Cfg) {w : World} (a : Aid) (hC : CInv w) : CInv (tele cfg w a).1 := by
+theorem prim_tele {P : World → Prop} (hP : Prim P) (cfg : Cfg) {w : World} (a : Aid) (hC : P w) : P (tele cfg w a).1 := by
   unfold tele
   split
-  · exact cinv_teleTo a _ _ hC
+  · exact prim_teleTo hP a _ _ hC
   · split
-    · exact cinv_teleTo a _ _ hC
+    · exact prim_teleTo hP a _ _ hC
     · exact hC
 
 /-! ## blocks of statements -/
@@ -487,7 +508,7 @@ theorem keepsP_loopR {P : World → Prop} {β : Type} {f : PS → β → R} (hf 
       exact ih p' h1
     · exact h1
 
-theorem keepsC_reward (a : Aid) (v : Option Int) : KeepsP CInv fun p => reward p a v := by
+theorem keepsP_reward {P : World → Prop} (_hP : Prim P) (a : Aid) (v : Option Int) : KeepsP P fun p => reward p a v := by
   intro p hp
   dsimp only
   unfold reward
@@ -495,103 +516,103 @@ theorem keepsC_reward (a : Aid) (v : Option Int) : KeepsP CInv fun p => reward p
   · exact hp
   · split <;> exact hp
 
-theorem keepsC_moveTele (cfg : Cfg) (a : Aid) (act : Int) (rew : Bool) : KeepsP CInv fun p => moveTele cfg p a act rew := by
+theorem keepsP_moveTele {P : World → Prop} (hP : Prim P) (cfg : Cfg) (a : Aid) (act : Int) (rew : Bool) : KeepsP P fun p => moveTele cfg p a act rew := by
   intro p hp
   dsimp only
   unfold moveTele
   split
   · exact hp
   · rename_i res w1 l hd
-    have h1 : CInv w1 := cinv_driftAct hp hd
+    have h1 : P w1 := prim_driftAct hP hp hd
     apply keepsP_andThen
     · split
-      · exact keepsC_reward a _ { p with w := w1 } h1
+      · exact keepsP_reward hP a _ { p with w := w1 } h1
       · exact h1
     · intro p2 hp2
-      exact cinv_tele cfg a hp2
+      exact prim_tele hP cfg a hp2
 
-theorem keepsC_biteBody (cfg : Cfg) (b : Aid) :
-    KeepsP CInv fun p => andThen (reward p cfg.pacman cfg.scheme.die) fun p1 =>
+theorem keepsP_biteBody {P : World → Prop} (hP : Prim P) (cfg : Cfg) (b : Aid) :
+    KeepsP P fun p => andThen (reward p cfg.pacman cfg.scheme.die) fun p1 =>
       andThen (reward p1 b cfg.scheme.kill) fun p2 => ({ p2 with w := p2.w.setHealth cfg.pacman 0 }, Ctl.go) := by
   intro p hp
-  apply keepsP_andThen (keepsC_reward _ _ p hp)
+  apply keepsP_andThen (keepsP_reward hP _ _ p hp)
   intro p1 hp1
-  apply keepsP_andThen (keepsC_reward _ _ p1 hp1)
+  apply keepsP_andThen (keepsP_reward hP _ _ p1 hp1)
   intro p2 hp2
-  exact cinv_setHealth hp2
+  exact hP.setHealth hp2
 
-theorem keepsC_eatBody (cfg : Cfg) (b : Aid) :
-    KeepsP CInv fun p => andThen (reward p cfg.pacman cfg.scheme.eatFood) fun p1 =>
+theorem keepsP_eatBody {P : World → Prop} (hP : Prim P) (cfg : Cfg) (b : Aid) :
+    KeepsP P fun p => andThen (reward p cfg.pacman cfg.scheme.eatFood) fun p1 =>
       match removeG p1.w b (p1.w.stOf cfg.pacman).pos with
       | .error e => (p1, Ctl.err e)
       | .ok w2 => ({ p1 with w := w2.setHealth b 0 }, Ctl.go) := by
   intro p hp
-  apply keepsP_andThen (keepsC_reward _ _ p hp)
+  apply keepsP_andThen (keepsP_reward hP _ _ p hp)
   intro p1 hp1
   dsimp only
   split
   · exact hp1
   · rename_i w2 hr
-    exact cinv_setHealth (cinv_removeG hp1 hr)
+    exact hP.setHealth (prim_removeG hP hp1 hr)
 
-theorem keepsC_eat1 (cfg : Cfg) (b : Aid) : KeepsP CInv fun p => eat1 cfg p b := by
+theorem keepsP_eat1 {P : World → Prop} (hP : Prim P) (cfg : Cfg) (b : Aid) : KeepsP P fun p => eat1 cfg p b := by
   intro p hp
   dsimp only
   unfold eat1
   split
   · exact hp
   · split
-    · exact keepsC_eatBody cfg b p hp
+    · exact keepsP_eatBody hP cfg b p hp
     · split
-      · exact keepsC_biteBody cfg b p hp
+      · exact keepsP_biteBody hP cfg b p hp
       · exact hp
 
-theorem keepsC_bite1 (cfg : Cfg) (b : Aid) : KeepsP CInv fun p => bite1 cfg p b := by
+theorem keepsP_bite1 {P : World → Prop} (hP : Prim P) (cfg : Cfg) (b : Aid) : KeepsP P fun p => bite1 cfg p b := by
   intro p hp
   dsimp only
   unfold bite1
   split
   · exact hp
   · split
-    · exact keepsC_biteBody cfg b p hp
+    · exact keepsP_biteBody hP cfg b p hp
     · exact hp
 
-theorem keepsC_dieNow (cfg : Cfg) : KeepsP CInv fun p => dieNow cfg p := by
+theorem keepsP_dieNow {P : World → Prop} (hP : Prim P) (cfg : Cfg) : KeepsP P fun p => dieNow cfg p := by
   intro p hp
   dsimp only
   unfold dieNow
-  apply keepsP_andThen (keepsC_reward _ _ p hp)
+  apply keepsP_andThen (keepsP_reward hP _ _ p hp)
   intro p1 hp1
   simp only
   split
-  · exact cinv_setHealth hp1
+  · exact hP.setHealth hp1
   · rename_i w2 hr
-    exact cinv_removeG (cinv_setHealth hp1) hr
+    exact prim_removeG hP (hP.setHealth hp1) hr
 
-theorem keepsC_eat1S (cfg : Cfg) (b : Aid) : KeepsP CInv fun p => eat1S cfg p b := by
+theorem keepsP_eat1S {P : World → Prop} (hP : Prim P) (cfg : Cfg) (b : Aid) : KeepsP P fun p => eat1S cfg p b := by
   intro p hp
   dsimp only
   unfold eat1S
   split
   · exact hp
   · split
-    · exact keepsC_eatBody cfg b p hp
+    · exact keepsP_eatBody hP cfg b p hp
     · split
-      · exact keepsC_dieNow cfg p hp
+      · exact keepsP_dieNow hP cfg p hp
       · exact hp
 
-theorem keepsC_bite1S (cfg : Cfg) (b : Aid) : KeepsP CInv fun p => bite1S cfg p b := by
+theorem keepsP_bite1S {P : World → Prop} (hP : Prim P) (cfg : Cfg) (b : Aid) : KeepsP P fun p => bite1S cfg p b := by
   intro p hp
   dsimp only
   unfold bite1S
   split
   · exact hp
   · split
-    · exact keepsC_dieNow cfg p hp
+    · exact keepsP_dieNow hP cfg p hp
     · exact hp
 
-theorem keepsC_overlapLoop (cfg : Cfg) {f : PS → Aid → R} (hf : ∀ b, KeepsP CInv fun p => f p b) :
-    KeepsP CInv fun p => overlapLoop cfg f p := by
+theorem keepsP_overlapLoop {P : World → Prop} (_hP : Prim P) (cfg : Cfg) {f : PS → Aid → R} (hf : ∀ b, KeepsP P fun p => f p b) :
+    KeepsP P fun p => overlapLoop cfg f p := by
   intro p hp
   dsimp only
   unfold overlapLoop
@@ -600,7 +621,7 @@ theorem keepsC_overlapLoop (cfg : Cfg) {f : PS → Aid → R} (hf : ∀ b, Keeps
   · exact keepsP_loopR hf _ p hp
   · exact hp
 
-theorem keepsC_baddie1 (cfg : Cfg) (x : Aid × Int) : KeepsP CInv fun p => baddie1 cfg p x := by
+theorem keepsP_baddie1 {P : World → Prop} (hP : Prim P) (cfg : Cfg) (x : Aid × Int) : KeepsP P fun p => baddie1 cfg p x := by
   intro p hp
   dsimp only
   unfold baddie1
@@ -608,81 +629,82 @@ theorem keepsC_baddie1 (cfg : Cfg) (x : Aid × Int) : KeepsP CInv fun p => baddi
   · exact hp
   · split
     · exact hp
-    · exact keepsC_moveTele cfg x.1 x.2 true p hp
+    · exact keepsP_moveTele hP cfg x.1 x.2 true p hp
 
-theorem keepsC_baddie1S (cfg : Cfg) (x : Nat × Int) : KeepsP CInv fun p => baddie1S cfg p x := by
+theorem keepsP_baddie1S {P : World → Prop} (hP : Prim P) (cfg : Cfg) (x : Nat × Int) : KeepsP P fun p => baddie1S cfg p x := by
   intro p hp
   dsimp only
   unfold baddie1S
   split
   · exact hp
   · rename_i b _
-    exact keepsC_moveTele cfg b x.2 false p hp
+    exact keepsP_moveTele hP cfg b x.2 false p hp
 
-theorem keepsC_finish (cfg : Cfg) : KeepsP CInv fun p => finish cfg p := by
+theorem keepsP_finish {P : World → Prop} (hP : Prim P) (cfg : Cfg) : KeepsP P fun p => finish cfg p := by
   intro p hp
   dsimp only
   unfold finish
   split
   · split
     · exact hp
-    · rename_i w' hr; exact cinv_removeG hp hr
+    · rename_i w' hr; exact prim_removeG hP hp hr
   · exact hp
 
-theorem keepsC_stepFull (cfg : Cfg) (acts : List (Aid × Int)) : KeepsP CInv fun p => stepFull cfg p acts := by
+theorem keepsP_stepFull {P : World → Prop} (hP : Prim P) (cfg : Cfg) (acts : List (Aid × Int)) : KeepsP P fun p => stepFull cfg p acts := by
   intro p hp
   dsimp only
   unfold stepFull
   split
   · exact hp
   · rename_i act _
-    apply keepsP_andThen (keepsC_moveTele cfg cfg.pacman act true p hp)
+    apply keepsP_andThen (keepsP_moveTele hP cfg cfg.pacman act true p hp)
     intro p1 hp1
-    apply keepsP_andThen (keepsC_overlapLoop cfg (keepsC_eat1 cfg) p1 hp1)
+    apply keepsP_andThen (keepsP_overlapLoop hP cfg (keepsP_eat1 hP cfg) p1 hp1)
     intro p2 hp2
-    apply keepsP_andThen (keepsP_loopR (keepsC_baddie1 cfg) acts p2 hp2)
+    apply keepsP_andThen (keepsP_loopR (keepsP_baddie1 hP cfg) acts p2 hp2)
     intro p3 hp3
-    apply keepsP_andThen (keepsC_overlapLoop cfg (keepsC_bite1 cfg) p3 hp3)
+    apply keepsP_andThen (keepsP_overlapLoop hP cfg (keepsP_bite1 hP cfg) p3 hp3)
     intro p4 hp4
-    exact keepsC_finish cfg p4 hp4
+    exact keepsP_finish hP cfg p4 hp4
 
-theorem keepsC_stepSimple (cfg : Cfg) (k : Nat) (acts : List (Aid × Int)) :
-    KeepsP CInv fun p => stepSimple cfg p k acts := by
+theorem keepsP_stepSimple {P : World → Prop} (hP : Prim P) (cfg : Cfg) (k : Nat) (acts : List (Aid × Int)) :
+    KeepsP P fun p => stepSimple cfg p k acts := by
   intro p hp
   dsimp only
   unfold stepSimple
   split
   · exact hp
   · rename_i act _
-    apply keepsP_andThen (keepsC_moveTele cfg cfg.pacman act true p hp)
+    apply keepsP_andThen (keepsP_moveTele hP cfg cfg.pacman act true p hp)
     intro p1 hp1
-    apply keepsP_andThen (keepsC_overlapLoop cfg (keepsC_eat1S cfg) p1 hp1)
+    apply keepsP_andThen (keepsP_overlapLoop hP cfg (keepsP_eat1S hP cfg) p1 hp1)
     intro p2 hp2
     dsimp only
     split
     · exact hp2
     · rename_i sc _
-      apply keepsP_andThen (keepsP_loopR (keepsC_baddie1S cfg) sc p2 hp2)
+      apply keepsP_andThen (keepsP_loopR (keepsP_baddie1S hP cfg) sc p2 hp2)
       intro p3 hp3
-      exact keepsC_overlapLoop cfg (keepsC_bite1S cfg) p3 hp3
+      exact keepsP_overlapLoop hP cfg (keepsP_bite1S hP cfg) p3 hp3
 
 /-- **every `step` keeps the cell structure** — any configuration, world, ledger, tape, `step_count`, action dict; the
 call may return or raise -/
-theorem step_cinv (cfg : Cfg) (s : St) (acts : List (Aid × Int)) (hC : CInv s.ex.w) : CInv (step cfg s acts).1.ex.w := by
+theorem step_prim {P : World → Prop} (hP : Prim P) (cfg : Cfg) (s : St) (acts : List (Aid × Int)) (hC : P s.ex.w) :
+    P (step cfg s acts).1.ex.w := by
   unfold step
   split
   · exact hC
   · rename_i r _
     simp only [stepR]
     split
-    · exact keepsC_stepSimple cfg s.count acts ⟨s.ex.w, r, s.ex.tape⟩ hC
-    · exact keepsC_stepFull cfg acts ⟨s.ex.w, r, s.ex.tape⟩ hC
+    · exact keepsP_stepSimple hP cfg s.count acts ⟨s.ex.w, r, s.ex.tape⟩ hC
+    · exact keepsP_stepFull hP cfg acts ⟨s.ex.w, r, s.ex.tape⟩ hC
 
 /-- **every `step` keeps `WInvFloat`** -/
 theorem step_float (cfg : Cfg) (s : St) (acts : List (Aid × Int)) (h : WInvFloat s.ex.w = true) :
     WInvFloat (step cfg s acts).1.ex.w = true := by
   rw [WInvFloat_iff] at h ⊢
-  exact ⟨step_cinv cfg s acts h.1, vit_of_vsame (step_vsame cfg s acts) h.2⟩
+  exact ⟨step_prim prim_cinv cfg s acts h.1, vit_of_vsame (step_vsame cfg s acts) h.2⟩
 
 end PM
 end Abmarl
